@@ -104,6 +104,17 @@ def oracle(case, rng, est=None):
         return f'transform raised {type(ex).__name__}: {ex}'
 
 
+def population_search(ctx):
+    """failing-input search over a fresh population (also used when an exception raised inside the implementation
+    ended the correspondence run early)"""
+    for i in range(400):
+        c = st.gen_case(ctx.rng, KINDS, max_depth=3, cap=40, opaque=True)
+        why = oracle(c, ctx.rng)
+        if why:
+            ctx.fail(why, c, {'kinds': sorted(pipes.kinds_in(c['spec']))})
+            return
+
+
 def run(ctx):
     ctx.rule = ('random lifting-function trees (all kinds, depth<=3) x dims x layouts; observation: the full '
                 'transform (tagged integers exact / symbolic terms rel 1e-9), the declared partition, and the '
@@ -180,12 +191,7 @@ def run(ctx):
                 if why:
                     ctx.fail(why, c, {'kinds': sorted(pipes.kinds_in(c['spec']))})
                     return
-        for i in range(400):
-            c = st.gen_case(ctx.rng, KINDS, max_depth=3, cap=40, opaque=True)
-            why = oracle(c, ctx.rng)
-            if why:
-                ctx.fail(why, c, {'kinds': sorted(pipes.kinds_in(c['spec']))})
-                return
+        population_search(ctx)
     return ctx.finish('proof', search)
 
 
